@@ -26,8 +26,13 @@ op meanvar   `Pipeline.meanVar` at Float (`carrier float`, tokens = hex bit patt
   Reply: `<id> <mn> <vr> <mn> <vr> …`.
 
 op toprob    `Pipeline.toProb` on one row: `row <tok>…`.  Reply `<id> <tok>…`.
+
+op project   `Pipeline.project` (DatingInput) of the tables given in the gmts line syntax, plus a line
+  `phased 0|1`.  Reply `<id> <canonical rendering of the projection>`; two inputs are dated identically
+  by the model exactly when these renderings are equal.
 -/
 import TsdateVerif.Model.Pipeline
+import TsdateVerif.Model.DatingInput
 import TsdateVerif.Model.Proto
 open Tsdate Tsdate.Proto Tsdate.Tables Tsdate.Pipeline
 
@@ -206,12 +211,24 @@ def runToProb (id : String) (blk : List (List String)) : Option String := do
     if sum row = 0 then none
     pure (id ++ " " ++ " ".intercalate ((toProb row).map ratToString))
 
+def runProject (id : String) (blk : List (List String)) : Option String := do
+  let t ← parseTC blk
+  let ph ← (← field blk "phased").head?
+  let d := project (ph = "1") t
+  let muts := d.mutations.map (fun (p, n) => s!"{p.getD "none"}@{n}")
+  let inds := match d.individuals with
+    | none => "-"
+    | some (l, k) => s!"{commaInts l}#{k}"
+  pure (s!"{id} seq={d.sequenceLength} times={commaStrs d.nodesTime} samples={commaStrs (d.nodesSample.map toString)} " ++
+    s!"edges={commaStrs (d.edges.map (fun (l, r, p, c) => s!"{l}:{r}:{p}:{c}"))} muts={commaStrs muts} inds={inds}")
+
 def runCase (blk : List (List String)) : Option String := do
   let id ← (← field blk "case").head?
   let op ← (← field blk "op").head?
   if op = "gmts" then runGmts id blk
   else if op = "meanvar" then runMeanVar id blk
   else if op = "toprob" then runToProb id blk
+  else if op = "project" then runProject id blk
   else none
 
 partial def loop (h : IO.FS.Stream) : IO Unit := do
